@@ -9,6 +9,10 @@ CLAIMED = {
    text='Machine-checked proof (Lean 4): for every mnemonic, every operand list, every i64 operand value, both cores and every address, the model of instruction::process emits exactly the ISA words of the instruction the independent legality spec assigns (Props.Enc.model_eq_spec, C01.process_complete); the finite bit-packing tables are evaluated completely in the kernel (decide +kernel over allIn), opcode/length rows are re-extracted from the code on every run. Tie to the code: Gen tables by execution + exhaustive differential run of all ~108k legal tuples through build_str (impl vs model vs independent spec).',
    note='Trusted: Lean kernel (axioms propext, Classical.choice, Quot.sound only), hand transcription of the ISA patterns, the hand-written model tied by Gen extraction and exhaustive correspondence, harness/driver/generators. Model assumption: operands resolve (no fuel exhaustion) and registers are r0..r31.',
    technique='Lean 4 theorem (model = ISA spec, all operands) + kernel-evaluated finite tables + Gen re-extraction + exhaustive differential correspondence', ref='6/C01'),
+ 'C02': dict(
+   text='Machine-checked proof (Lean 4): code_lockstep — for EVERY item list of a code segment (instructions of both lengths incl. one-word lds/sts on reduced cores, .db lines odd/even/strings, .dw/.dd/.dq, .set/.def/.undef, labels, pragmas), any start address, any contexts with the same device: what pass 1 booked is what pass 2 emits (even byte count, end offset = start + emitted/2) — pass 1 and pass 2 are separate code and this is where they could disagree; process_len (bytes = 2 x table length, via encodeR_second and the kernel-decided Gen obligation info_len_table over the re-extracted opcode table); label_is_next_position, duplicate_label_error, org_lands / org_gap_zero (an .org segment starts at byte 2N, the gap is zeros). Tie: differential run over random layouts (6 devices incl. reduced core, interleaved segments, .org gaps, labels read back through .dw tables) against the generator\'s naive sequential placement with instruction words from the Lean ISA spec. Two recorded findings (.byte with a size unknown at parse time — pinned by tests/builder_simple.asm; .org 0 after items) are exercised by exact inputs and reported as KNOWN-FINDING.',
+   note='Trusted: Lean kernel, model of pass1/pass2 tied by correspondence, generator\'s reference placement. The multi-segment composition (running offsets across interleaved segments) and the EEPROM/data lockstep are covered by the correspondence run, not yet by a theorem.',
+   technique='Lean 4 theorem (pass-1/pass-2 lockstep by induction over item lists) + Gen obligation + differential correspondence against sequential placement', ref='6/C02'),
  'C03': dict(
    text='Machine-checked proof (Lean 4): for all 20 branch forms, rjmp and rcall, every address and every i64 target, the model accepts iff the displacement fits (-64..63 / -2048..2047) and then emits the ISA word whose field sign-extends to exactly target-(address+1) (C03.branch_exact, brb_exact, rjmp_exact, signExt_twos7/12, branch_field_position). Tie: Gen tables + differential run over programs with labels/pc expressions at all distances around both limits with fillers and .org gaps.',
    note='Trusted base as C01. The instruction address itself (labels, pc) is the subject of C02.',
